@@ -42,8 +42,9 @@ VARIABLES
   lostq,      \* [Sides -> Seq(link)] when_disconnected callbacks of selected connections, queued eventually
   stopReq,    \* [Sides -> BOOLEAN] Terminator asked the Dilator to stop
   stopped,    \* [Sides -> BOOLEAN] Manager.when_stopped fired (-> T.stoppedD -> closed notification)
-  cuts, internal, last
-vars == <<mgr, versions, ctr, cgen, ctrOf, mq, held, links, nlinks, accepts, sel, lostq, stopReq, stopped, cuts, internal, last>>
+  cuts, internal, last,
+  dstat       \* [Sides -> the peer_connection of the DilationStatus last reported: "none" (no dilate() yet) | "nopeer" | "connecting" | "connected" | "reconnecting" | "stopped"]
+vars == <<mgr, versions, ctr, cgen, ctrOf, mq, held, links, nlinks, accepts, sel, lostq, stopReq, stopped, cuts, internal, last, dstat>>
 
 NoLink == [phase |-> "none", wascut |-> FALSE, dialer |-> "-", gen |-> [L |-> 0, F |-> 0], endst |-> [L |-> "down", F |-> "down"], dcp |-> [L |-> "-", F |-> "-"]]
 MaxGen == 4
@@ -57,15 +58,16 @@ Init ==
   /\ accepts = [x \in Sides |-> <<>>] /\ sel = [x \in Sides |-> 0] /\ lostq = [x \in Sides |-> <<>>]
   /\ stopReq = [x \in Sides |-> FALSE] /\ stopped = [x \in Sides |-> FALSE]
   /\ cuts = 0 /\ internal = <<>> /\ last = <<"Init", "-", 0>>
+  /\ dstat = [x \in Sides |-> "none"]
 
 \* ---------------------------------------------------------------------------------------------------------------
 \* A "world" record w carries every variable through a cascade of synchronous calls; actions end with Commit(w).
 World == [mgr |-> mgr, versions |-> versions, ctr |-> ctr, cgen |-> cgen, ctrOf |-> ctrOf, mq |-> mq, held |-> held,
           links |-> links, nlinks |-> nlinks, accepts |-> accepts, sel |-> sel, lostq |-> lostq, stopReq |-> stopReq,
-          stopped |-> stopped, internal |-> internal]
+          stopped |-> stopped, internal |-> internal, dstat |-> dstat]
 Commit(w) == /\ mgr' = w.mgr /\ versions' = w.versions /\ ctr' = w.ctr /\ cgen' = w.cgen /\ ctrOf' = w.ctrOf /\ mq' = w.mq
              /\ held' = w.held /\ links' = w.links /\ nlinks' = w.nlinks /\ accepts' = w.accepts /\ sel' = w.sel
-             /\ lostq' = w.lostq /\ stopReq' = w.stopReq /\ stopped' = w.stopped /\ internal' = w.internal
+             /\ lostq' = w.lostq /\ stopReq' = w.stopReq /\ stopped' = w.stopped /\ internal' = w.internal /\ dstat' = w.dstat
 Err(w, what) == [w EXCEPT !.internal = Append(@, what)]
 \* (a wormhole that is closing no longer transmits: Boss ignores send in S3_closing / S4_closed)
 Send(w, x, msg) == IF w.stopReq[x] THEN w ELSE [w EXCEPT !.mq[Peer(x)] = Append(@, msg)]
@@ -132,7 +134,10 @@ MgrOuts(w, x, outs, arg) ==
                    [] o = "stop_connecting" -> IF w.cgen[x] > 0 THEN CtrInput(w, x, w.cgen[x], "stop", 0) ELSE w
                    [] o = "abandon_connection" -> IF w.sel[x] > 0 THEN CloseEnd(w, w.sel[x], x) ELSE Err(w, "abandon-without-connection")
                    [] o = "notify_stopped" -> [w EXCEPT !.stopped[x] = TRUE]
-                   [] o \in {"send_status_connecting", "send_status_reconnecting", "send_status_dilation_generation", "send_status_stopped"} -> w
+                   [] o = "send_status_connecting" -> [w EXCEPT !.dstat[x] = "connecting"]
+                   [] o = "send_status_reconnecting" -> [w EXCEPT !.dstat[x] = "reconnecting"]
+                   [] o = "send_status_stopped" -> [w EXCEPT !.dstat[x] = "stopped"]
+                   [] o = "send_status_dilation_generation" -> w
                    [] OTHER -> Err(w, "unmodelled-output:MGR." \o o)
        IN MgrOuts(w1, x, Tail(outs), arg)
 
@@ -147,7 +152,7 @@ RxMsg(w, x, m) == CASE m.t = "please" -> MgrInput(w, x, "rx_PLEASE", 0)
 Replay(w, x, ms) == IF ms = <<>> THEN w ELSE Replay(RxMsg(w, x, Head(ms)), x, Tail(ms))
 AppDilate(x) ==
   /\ mgr[x] = "none" /\ x \in Dilaters /\ ~stopReq[x]
-  /\ LET w0 == [World EXCEPT !.mgr[x] = Init_MGR, !.held[x] = <<>>]
+  /\ LET w0 == [World EXCEPT !.mgr[x] = Init_MGR, !.held[x] = <<>>, !.dstat[x] = "nopeer"]
          w1 == IF versions[x] THEN MgrInput(w0, x, "start", 0) ELSE w0 IN
      Commit(Replay(w1, x, held[x]))
   /\ cuts' = cuts /\ last' = <<"AppDilate", x, 0>>
@@ -180,7 +185,7 @@ TcpUp(i) ==
                                  ![i].dcp = [L |-> Init_DCP, F |-> Init_DCP]]
      ELSE links' = [links EXCEPT ![i].phase = "dead"]          \* connection refused
   /\ last' = <<"TcpUp", "-", i>>
-  /\ UNCHANGED <<mgr, versions, ctr, cgen, ctrOf, mq, held, nlinks, accepts, sel, lostq, stopReq, stopped, cuts, internal>>
+  /\ UNCHANGED <<mgr, versions, ctr, cgen, ctrOf, mq, held, nlinks, accepts, sel, lostq, stopReq, stopped, cuts, internal, dstat>>
 
 BothUp(i) == links[i].endst.L = "up" /\ links[i].endst.F = "up"
 \* prologues and Noise messages exchanged; the Follower sends its KCM
@@ -188,7 +193,7 @@ HsDone(i) ==
   /\ links[i].phase = "hs" /\ BothUp(i)
   /\ links' = [links EXCEPT ![i].phase = "kcmF"]
   /\ last' = <<"HsDone", "-", i>>
-  /\ UNCHANGED <<mgr, versions, ctr, cgen, ctrOf, mq, held, nlinks, accepts, sel, lostq, stopReq, stopped, cuts, internal>>
+  /\ UNCHANGED <<mgr, versions, ctr, cgen, ctrOf, mq, held, nlinks, accepts, sel, lostq, stopReq, stopped, cuts, internal, dstat>>
 
 \* a KCM arrives at side x's end of link i: DCP.got_kcm -> Connector.add_candidate (of the Connector that built it)
 GotKcm(w, x, i) ==
@@ -223,7 +228,7 @@ TurnAccept(x) ==
           ELSE LET w2 == StopPending(w1, x, g, i)
                    ds == w2.links[i].dcp[x]
                    w3 == IF <<ds, "select">> \in DOMAIN Tbl_DCP
-                         THEN [w2 EXCEPT !.links[i].dcp[x] = Tbl_DCP[<<ds, "select">>].next]
+                         THEN [w2 EXCEPT !.links[i].dcp[x] = Tbl_DCP[<<ds, "select">>].next, !.dstat[x] = "connected"]   \* send_status_have_peer
                          ELSE Err(w2, "NoTransition:DCP." \o ds \o ".select")
                    \* the Leader's KCM goes out only if the connection is still there
                    w4 == IF x = "L" THEN [w3 EXCEPT !.links[i].phase = IF @ = "Lcand" THEN "Lsel" ELSE @]
@@ -242,7 +247,7 @@ Cut(i) ==
   /\ cuts < MaxCuts /\ links[i].phase \notin {"none", "dial", "dead"} /\ (links[i].endst.L = "up" \/ links[i].endst.F = "up")
   /\ links' = [links EXCEPT ![i].endst = [x \in Sides |-> IF @[x] = "up" THEN "cut" ELSE @[x]], ![i].wascut = TRUE]
   /\ cuts' = cuts + 1 /\ last' = <<"Cut", "-", i>>
-  /\ UNCHANGED <<mgr, versions, ctr, cgen, ctrOf, mq, held, nlinks, accepts, sel, lostq, stopReq, stopped, internal>>
+  /\ UNCHANGED <<mgr, versions, ctr, cgen, ctrOf, mq, held, nlinks, accepts, sel, lostq, stopReq, stopped, internal, dstat>>
 
 \* the Leader's connection monitor (TrafficTimer, C16) gives up on a silent peer: two ping intervals without an answer and
 \* Manager._signal_reconnect() disconnects the connection in use; the loss then arrives like any other
@@ -250,7 +255,7 @@ MonitorDrop ==
   /\ cuts < MaxCuts /\ mgr.L = "CONNECTED" /\ sel.L > 0 /\ links[sel.L].endst.L = "up" /\ ~stopReq.L
   /\ links' = [links EXCEPT ![sel.L].endst.L = "closing"]
   /\ cuts' = cuts + 1 /\ last' = <<"MonitorDrop", "L", sel.L>>
-  /\ UNCHANGED <<mgr, versions, ctr, cgen, ctrOf, mq, held, nlinks, accepts, sel, lostq, stopReq, stopped, internal>>
+  /\ UNCHANGED <<mgr, versions, ctr, cgen, ctrOf, mq, held, nlinks, accepts, sel, lostq, stopReq, stopped, internal, dstat>>
 
 \* a ping interval passes on a healthy shared connection: the Leader's interval timer expires, it pings, the Follower answers
 \* (nothing changes at this level of abstraction - the real timer, ping and pong do run; never twice in a row)
@@ -258,7 +263,7 @@ KeepAlive ==
   /\ mgr.L = "CONNECTED" /\ mgr.F = "CONNECTED" /\ sel.L > 0 /\ sel.L = sel.F
   /\ links[sel.L].endst.L = "up" /\ links[sel.L].endst.F = "up" /\ last[1] # "KeepAlive"
   /\ last' = <<"KeepAlive", "L", sel.L>>
-  /\ UNCHANGED <<mgr, versions, ctr, cgen, ctrOf, mq, held, links, nlinks, accepts, sel, lostq, stopReq, stopped, cuts, internal>>
+  /\ UNCHANGED <<mgr, versions, ctr, cgen, ctrOf, mq, held, links, nlinks, accepts, sel, lostq, stopReq, stopped, cuts, internal, dstat>>
 
 \* side x's end of link i sees connectionLost (it was cut, it closed itself, or the peer's end closed)
 CanLose(i, x) == links[i].endst[x] \in {"cut", "closing"} \/ (links[i].endst[x] = "up" /\ links[i].endst[Peer(x)] \in {"closing", "down"})
@@ -292,6 +297,14 @@ Next == (\E x \in Sides : AppDilate(x) \/ VersionsArrive(x) \/ MailboxDeliver(x)
 Fair == WF_vars(\E x \in Sides : VersionsArrive(x) \/ MailboxDeliver(x) \/ TurnAccept(x) \/ TurnLost(x))
         /\ WF_vars(\E i \in LinkIds : TcpUp(i) \/ HsDone(i) \/ DeliverKcmF(i) \/ DeliverKcmL(i) \/ \E x \in Sides : ObserveLoss(i, x))
 Spec == Init /\ [][Next]_vars /\ Fair
+
+\* ---- supplementary (no listed property): the DilationStatus reported to the application agrees with the Manager ----------------
+DStatusStopped == \A x \in Sides : dstat[x] = "stopped" => mgr[x] = "STOPPED"
+\* (the converse does not hold on the pinned tree: WAITING x stop and WANTING x stop enter STOPPED without send_status_stopped -
+\* an application that closes before the peer's versions arrive keeps seeing NoPeer; TLC's counterexample is one Stop step long)
+DStatusStoppedConverse == \A x \in Sides : mgr[x] = "STOPPED" => dstat[x] = "stopped"
+DStatusConnected == \A x \in Sides : mgr[x] = "CONNECTED" => dstat[x] = "connected"
+DStatusNone == \A x \in Sides : (dstat[x] = "none") <=> (mgr[x] = "none")
 
 \* ---- properties ----------------------------------------------------------------------------------------------------------
 \* C11: at any moment each side uses at most one peer connection ...
